@@ -164,6 +164,7 @@ func (c *Check) Distinct(set, key string) {
 // Local is a per-worker accumulator merged into the check at the end (avoids lock traffic).
 type Local struct {
 	c        *Check
+	slot     *slot
 	counters map[string]int64
 	distinct map[string]map[uint64]struct{}
 }
@@ -172,6 +173,17 @@ func (c *Check) NewLocal() *Local {
 	return &Local{c: c, counters: map[string]int64{}, distinct: map[string]map[uint64]struct{}{}}
 }
 func (l *Local) Count(name string, n int64) { l.counters[name] += n }
+
+// Beat tells the hang watchdog that the worker has finished one unit of work inside a long
+// Range case (the watchdog measures the age of the latest beat, not of the whole case).
+func (l *Local) Beat(desc string) {
+	if l.slot != nil {
+		if desc != "" {
+			l.slot.desc.Store(desc)
+		}
+		atomic.StoreInt64(&l.slot.since, time.Now().UnixNano())
+	}
+}
 func (l *Local) Distinct(set, key string) {
 	h := fnv.New64a()
 	h.Write([]byte(key))
@@ -392,6 +404,7 @@ var HangSeconds = 120.0
 // under recover(); a panic is passed to onPanic (with the index). desc(i) names the case
 // for the hang report. Returns false if the internal deadline stopped the range early.
 func (c *Check) Range(name string, n int, desc func(i int) string, fn func(l *Local, i int)) bool {
+	t0 := time.Now()
 	w := Workers()
 	if w > n {
 		w = n
@@ -440,6 +453,7 @@ func (c *Check) Range(name string, n int, desc func(i int) string, fn func(l *Lo
 		go func(k int) {
 			defer wg.Done()
 			l := c.NewLocal()
+			l.slot = &slots[k]
 			defer l.Merge()
 			for {
 				i := int(atomic.AddInt64(&next, 1) - 1)
@@ -476,7 +490,7 @@ func (c *Check) Range(name string, n int, desc func(i int) string, fn func(l *Lo
 		c.Incomplete(name, fmt.Sprintf("internal deadline reached after %d of %d cases", atomic.LoadInt64(&next), n))
 		return false
 	}
-	c.Subspace(name, map[string]interface{}{"cases": n, "complete": true})
+	c.Subspace(name, map[string]interface{}{"cases": n, "complete": true, "wall_s": float64(int(time.Since(t0).Seconds()*10)) / 10})
 	return true
 }
 
